@@ -17,11 +17,11 @@
      spelling makes a completed block raise and drop every edit: C16_bare_path_refuted.
    - "each file exactly once" is proved per normalised spelling; per file it is false when one file is reached under
      a relative and an absolute spelling: C16_each_once_refuted (known finding).
-   - that only reachable paths are visited (the converse of C16_each_once's closure) is not proved; the
-     visit-once monitor and the correspondence (yielded keys, read trace) check it on every run.
+   - (closed since session 5) that ONLY reachable spellings are visited: C16_visits_exactly_reachable, with the
+     discovery order of the mapping handed to the caller (C16_discovery_order).
    - parse/print/glob/path functions are Section variables: no law is assumed except print_parse (C01),
      stated where used.  *)
-From AB Require Import Prelude Editor EditorProofs EditorRun.
+From AB Require Import Prelude Editor EditorProofs EditorRun EditorReach.
 
 Theorem C16_each_once : forall W fuel fs root tr texts files,
   bfs W fuel fs [normpath W root] [] [] = (tr, EOk (texts, files)) ->
@@ -29,6 +29,25 @@ Theorem C16_each_once : forall W fuel fs root tr texts files,
   In (normpath W root) (keys files) /\ includes_closed W files (keys files) /\
   Forall2 (entry_ok W fs) texts files.
 Proof. exact visits_each_once. Qed.
+
+(* the converse: a spelling is visited ONLY IF it is reachable from the root - the root itself, or a spelling the include
+   directives of a reachable, readable, parsable file expand to (reach, EditorReach.v) - hence the keys handed to the
+   caller are exactly the reachable spellings: no unrelated file is ever read, parsed or offered for editing *)
+Theorem C16_only_reachable : forall W fuel fs root tr texts files,
+  bfs W fuel fs [normpath W root] [] [] = (tr, EOk (texts, files)) ->
+  forall k, In k (keys files) -> reach W fs (normpath W root) k.
+Proof. exact only_reachable. Qed.
+
+Theorem C16_visits_exactly_reachable : forall W fuel fs root tr texts files,
+  bfs W fuel fs [normpath W root] [] [] = (tr, EOk (texts, files)) ->
+  forall k, In k (keys files) <-> reach W fs (normpath W root) k.
+Proof. exact visits_exactly_reachable. Qed.
+
+(* the mapping lists the root first and every other file after a file that includes it (breadth-first discovery) *)
+Theorem C16_discovery_order : forall W fuel fs root tr texts files,
+  bfs W fuel fs [normpath W root] [] [] = (tr, EOk (texts, files)) ->
+  discovered W files (normpath W root) /\ exists m rest, files = (normpath W root, m) :: rest.
+Proof. exact discovery_order. Qed.
 
 Theorem C16_terminates_on_cycles : forall W (U : list path) fuel fs root,
   In (normpath W root) U ->
@@ -171,6 +190,23 @@ Proof.
               (ex_texts false true) (ex_files false true)) as [A [B _]]; [vm_compute; reflexivity|].
   split; [exact A | exact B].
 Qed.
+Example C16_visits_exactly_reachable_ex :   (* b is reached through a (and through m); n and x are not reachable, and not read *)
+  reach (ex_W false true) ex_fs (normpath (ex_W false true) ex_root) (zs "b") /\
+  ~ reach (ex_W false true) ex_fs (normpath (ex_W false true) ex_root) (zs "n") /\
+  ~ reach (ex_W false true) ex_fs (normpath (ex_W false true) ex_root) (zs "x").
+Proof.
+  assert (H : bfs (ex_W false true) ex_fuel ex_fs [normpath (ex_W false true) ex_root] [] []
+              = (fst (ex_bfs false true), EOk (ex_texts false true, ex_files false true))) by (vm_compute; reflexivity).
+  pose proof (C16_visits_exactly_reachable _ _ _ _ _ _ _ H) as X.
+  split; [destruct (X (zs "b")) as [X1 _]; apply X1; vm_compute; tauto|].
+  split; intro R.
+  - destruct (X (zs "n")) as [_ X2]. apply X2 in R. vm_compute in R.
+    repeat (destruct R as [R|R]; [discriminate R|]); exact R.
+  - destruct (X (zs "x")) as [_ X2]. apply X2 in R. vm_compute in R.
+    repeat (destruct R as [R|R]; [discriminate R|]); exact R.
+Qed.
+Example C16_discovery_order_ex : map fst (ex_files false true) = map zs ["m"; "a"; "b"]%string.
+Proof. vm_compute. reflexivity. Qed.
 Example C16_terminates_on_cycles_ex : snd (ex_bfs false true) <> EErr EOutOfFuel.
 Proof.
   apply (C16_terminates_on_cycles (ex_W false true) (map zs ["m"; "a"; "b"]%string)).
